@@ -106,8 +106,7 @@ for pid in ALL:
                       "Assumptions: " + "; ".join(getattr(mod, "ASSUMPTIONS", [])) + ". Sampling never establishes absence.",
         "technique": entry.get("technique", "property-based testing (Hypothesis) against an explicit oracle"),
     })
-if not manifest["not_applicable"]:
-    del manifest["not_applicable"]
+# all 20 properties are claimed: the list is kept, explicitly empty, so that a reader sees nothing was set aside
 with open(os.path.join(ROOT, "MANIFEST.json"), "w") as fh:
     json.dump(manifest, fh, indent=1)
 print(len(manifest["checks"]), "checks registered")
